@@ -272,6 +272,25 @@ def leftovers(rng, p, loads=True, forces=True, aero=True, prob=0.5):
     return left
 
 
+def order_kwargs(rng, p, nx, ny):
+    """the ways a caller states the integration orders of a numerical kernel: both as keywords, one as keyword and the other
+    through the object's attribute, or both through the attributes.  Where a keyword is given the attribute holds a decoy
+    (another order), so a kernel that falls back to the attribute shows.  Returns (kwargs, kind)."""
+    kind = str(rng.choice(['both', 'both', 'nx_only', 'ny_only', 'attributes']))
+    kw = {}
+    if kind in ('both', 'nx_only'):
+        kw['nx'] = nx
+        p.nx = int(nx + rng.integers(1, 6)) if rng.random() < 0.5 else max(2, int(nx - rng.integers(1, 4)))
+    else:
+        p.nx = nx
+    if kind in ('both', 'ny_only'):
+        kw['ny'] = ny
+        p.ny = int(ny + rng.integers(1, 6)) if rng.random() < 0.5 else max(2, int(ny - rng.integers(1, 4)))
+    else:
+        p.ny = ny
+    return kw, kind
+
+
 def active_dofs(K, tol=0.0):
     """indices whose row AND column are not identically zero"""
     import scipy.sparse as sp
@@ -525,7 +544,7 @@ def build_shell(d):
     if d.get('F_reuse_factor'):
         from .oracles import shell as _sh
         cc.F_reuse = np.ascontiguousarray(_sh.laminate_F(d, cc.K)[0])
-    for k in ('P', 'P_inc', 'Fc', 'T', 'T_inc', 'pdC', 'pdT', 'uTM', 'thetaTdeg', 'nx', 'nt', 'ni_method', 'ni_num_cores'):
+    for k in ('P', 'P_inc', 'Fc', 'T', 'T_inc', 'pdC', 'pdT', 'uTM', 'thetaTdeg', 'betadeg', 'tLAdeg', 'nx', 'nt', 'ni_method', 'ni_num_cores'):
         if k in d:
             setattr(cc, k, d[k])
     cc.out_num_cores = 1
